@@ -11,8 +11,8 @@ the induction itself in `Props/C01.lean`.
 namespace RichModel.Layout
 open RichModel RichModel.Frames
 
-/-- what the theorems need of the configuration: rich's cell-width table, the repaired `leading` of tables (today's
-code), and an empty poison (the theorems speak of the cases the model covers). -/
+/-- what the theorems need of the configuration: rich's cell-width table, the repaired `leading` of tables (fix dd342b5, what
+/repo contains), and an empty poison (the theorems speak of the cases the model covers). -/
 structure CfgOk (cfg : Cfg) : Prop where
   hcw : cfg.cw = cwR
   hfl : cfg.fl.leadingRepeat = false
